@@ -1,9 +1,10 @@
 (* C10 driver: one case per line, see props/c10.py for the grammar.
-     <id> G|H|R|X|J <nv> <pathspec>*nv <no> <pathspec>*no <op>...
+     <id> G|H|R|X|J|Gc|Hc|Rc|Xc <nv> <pathspec>*nv <no> <pathspec>*no <op>...
           op: a <pathspec> <hex> | r <pathspec> | d <pathspec> | z <pathspec> | l <pathspec> | n <pathspec> | k <pathspec>
               | env <sephex> <patternhex> <hex,hex,...>
      <id> P|Q <sephex> <assignhex> <op>...
-          op: set <str> <len> | next | last | del | add <n> | post <hex> | bin | clr | cp | asg | fork
+          op: set <str> <len> | sets <str> <len> <sephex|~> <assignhex|~> | next | last | del | add <n> | post <hex> | bin
+              | clr | cp | asg | fork
      <id> T
    pathspec = <handle>:<sephex>:<str>, str = "~" (NULL) | "-" (empty) | hex.
    Prints "M <id> tok..." (mechanism model) and "S <id> tok..." (specification). *)
@@ -78,7 +79,12 @@ let bytes_of_string s = List.init (String.length s) (fun i -> n_of_int (Char.cod
    conversion BadType *)
 let handle_facts h = if h = 0 then "K133.0.8509.1.~.1.0.-1.-3" else "K133.0.8509.0.c.1.0.-1.-3"
 
-let run_store kind id toks =
+(* the path-less forms of config::root (op k, kinds R / X): remove(NULL) = 0, nothing changes;
+   assign(NULL, value) = BadArgument; query(NULL) without handler = 0 *)
+let root_facts = "K0.-1.0"
+
+(* conv: the observations also ask for the value itself (kind token "Gc", "Hc", "Rc", "Xc") *)
+let run_store kind conv id toks =
   let nv, toks = match toks with n :: r -> int_of_string n, r | [] -> failwith "nv" in
   let vs, toks = split_n nv toks in
   let no, toks = match toks with n :: r -> int_of_string n, r | [] -> failwith "no" in
@@ -109,12 +115,17 @@ let run_store kind id toks =
         else if tree then
           String.concat "/" ([ show_obs (wc (wdo (WVt (CQuery (b, p))))); wv0 false (wdo (WGetp (b, p, GExist)));
                                wv (wdo (WGetp (b, p, GVec))); wv (wdo (WGetp (b, p, GStr))) ]
-                             @ (if sep = dot then [ wv (wdo (WGet (b, s, GStr))) ] else []))
+                             @ (if sep = dot then [ wv (wdo (WGet (b, s, GStr))) ] else [])
+                             @ (if conv then [ wv (wdo (WGetp (b, p, GConv))) ] else [])
+                             @ (if conv && sep = dot then [ wv (wdo (WGet (b, s, GConv))) ] else []))
         else
           String.concat "/" ([ show_obs (xc (xdo (XVt (RQuery p)))); xv0 false (xdo (XGetp (p, GExist)));
                                xv (xdo (XGetp (p, GVec))); xv (xdo (XGetp (p, GStr))) ]
                              @ (if sep = dot && kind = 'X' then
-                                  [ match mkpath_of (s, dot) with Some q -> xv (xdo (XGetp (q, GStr))) | None -> "F" ] else []))
+                                  [ match mkpath_of (s, dot) with Some q -> xv (xdo (XGetp (q, GStr))) | None -> "F" ] else [])
+                             @ (if conv then [ xv (xdo (XGetp (p, GConv))) ] else [])
+                             @ (if conv && sep = dot && kind = 'X' then
+                                  [ match mkpath_of (s, dot) with Some q -> xv (xdo (XGetp (q, GConv))) | None -> "F" ] else []))
       | _ -> "F" in
     let sone (h, sep, s) =
       let e = (match snd (sstep !hist (HQuery (base_key h, str_key s sep)) true) with OutEntry e -> e | _ -> Absent) in
@@ -122,7 +133,9 @@ let run_store kind id toks =
       else
         let gv ty = show_gval coll (get_view cxx ty e) in
         String.concat "/" ([ show_entry e; show_gval false (get_view cxx GExist e); gv GVec; gv GStr ]
-                           @ (if sep = dot && kind <> 'R' then [ gv GStr ] else [])) in
+                           @ (if sep = dot && kind <> 'R' then [ gv GStr ] else [])
+                           @ (if conv then [ gv GConv ] else [])
+                           @ (if conv && sep = dot && kind <> 'R' then [ gv GConv ] else [])) in
     (String.concat "," (List.map one obs), String.concat "," (List.map sone obs)) in
   let emit rcm rcs =
     let (mo, so) = observe () in
@@ -249,15 +262,16 @@ let run_store kind id toks =
       go r
     | "k" :: ps :: r ->
       let (h, _, _) = parse_spec ps in
-      emit (handle_facts h) (handle_facts h);
+      if tree then emit (handle_facts h) (handle_facts h) else emit root_facts root_facts;
       go r
     | "env" :: sep :: pat :: ents :: r ->
       (* config::environ(pattern, sep, env): every "NAME=value" whose lower-cased name matches the
          pattern is assigned at the path the name spells with the separator, in order; stops at
          the first refused assignment *)
-      let sep = byte_of_hex sep in
+      (* "~ ~": config::environ() with its default arguments *)
+      let sep = if sep = "~" then N0 else byte_of_hex sep in
       let sep = if sep = N0 then n_of_int 0x5f else sep in
-      let pat = string_of_bytes (bytes_of_hex pat) in
+      let pat = if pat = "~" then "mpt_*" else string_of_bytes (bytes_of_hex pat) in
       let ents = List.map (fun t -> string_of_bytes (bytes_of_hex t)) (String.split_on_char ',' ents) in
       let accept = ref 0 and stop = ref false and fault = ref false in
       List.iter (fun e ->
@@ -323,6 +337,13 @@ let run_path cxx id toks =
       | "set" :: s :: l :: r ->
         let l = int_of_string l in
         step (PSet (str_of_tok s, if l < 0 then None else Some (nat_of_int l))) true; go r
+      | "sets" :: s :: l :: st :: at :: r ->
+        (* mpt::path::set(str, len, sep, assign): the fields, then mpt_path_set; one observation *)
+        let l = int_of_string l in
+        let fld t = if t = "~" then None else Some (byte_of_hex t) in
+        let o = PSep (fld st, fld at) in
+        p := fst (pstep !p o); a := fst (astep !a o);
+        step (PSet (str_of_tok s, if l < 0 then None else Some (nat_of_int l))) true; go r
       | "next" :: r -> step PNext false; go r
       | "last" :: r -> step PLast false; go r
       | "del" :: r -> step PDel false; go r
@@ -344,6 +365,7 @@ let () =
     match split_ws line with
     | id :: "P" :: r -> run_path false id r
     | id :: "Q" :: r -> run_path true id r
-    | id :: "T" :: _ -> Printf.printf "M %s config.133.1\nS %s config.133.1\n" id id
-    | id :: k :: r when k = "G" || k = "R" || k = "J" || k = "H" || k = "X" -> run_store k.[0] id r
+    | id :: "T" :: _ -> Printf.printf "M %s config.133.1.133.1\nS %s config.133.1.133.1\n" id id
+    | id :: k :: r when k = "G" || k = "R" || k = "J" || k = "H" || k = "X" -> run_store k.[0] false id r
+    | id :: k :: r when k = "Gc" || k = "Rc" || k = "Hc" || k = "Xc" -> run_store k.[0] true id r
     | _ -> ()) (read_lines ic)
